@@ -41,6 +41,34 @@ def gen_decl(rng, ty, cover=False):
     return node
 
 
+def ladder_decl(rng, ty):
+    """Disjoint ascending branches holding every spec shape once (..=a, a..b, a..=b, exact | a..=b, a..), so that each
+    end point of each shape is decided by exactly one branch and nothing before or after it masks a wrong comparison."""
+    rty = ty or "i32"
+    if rty.startswith("f"):
+        base = pick(rng, [-7.5, -1.0, 0.0, 0.25, 2.0])
+        step = pick(rng, [0.5, 1.0, 2.5])
+        c = [base + i * step for i in range(9)]
+        gap = step / 2
+    else:
+        lo, hi = rustfmt.INT_BOUNDS[rty]
+        step = rng.randint(2, 5)
+        base = rng.randint(max(lo + 1, -40), min(hi - 9 * step - 2, 40))
+        c = [base + i * step for i in range(9)]
+        gap = 1
+    shapes = [[{"r": "bounds", "start": None, "end": c[0], "incl": True}],
+              [{"r": "bounds", "start": c[0] + gap, "end": c[1], "incl": False}],
+              [{"r": "bounds", "start": c[1], "end": c[2], "incl": True}],
+              [{"r": "exact", "v": c[3]}, {"r": "bounds", "start": c[4], "end": c[5], "incl": True}],
+              [{"r": "bounds", "start": c[6], "end": c[7], "incl": False}],
+              [{"r": "bounds", "start": c[8], "end": None, "incl": False}]]
+    if rng.random() < 0.5:
+        shapes[0] = [{"r": "bounds", "start": None, "end": c[0], "incl": False}]
+    brs = [{"specs": sp, "segs": branch_segs(i)} for i, sp in enumerate(shapes)]
+    brs.append({"specs": None, "fb": pick(rng, ["_", ".."]), "segs": branch_segs(len(brs))})
+    return {"k": "range", "ty": ty, "branches": brs}
+
+
 def counts_for(node, rng, exhaustive_small=True):
     ty = node["ty"] or "i32"
     if ty in ("i8", "u8") and exhaustive_small:
@@ -244,6 +272,12 @@ def e2e_stage(res, tier, seed):
         types = ["i8", "u8"] + [pick(rng, [None] + gen.RANGE_TYPES) for _ in range(8 if tier == "quick" else 14)]
         for j, ty in enumerate(types):
             node = gen_decl(rng, ty, cover=(j < 2 and rng.random() < 0.5))
+            decls.append(("r%d" % j, node))
+            cs = counts_for(node, rng)
+            fkc["r%d" % j] = rng.sample(cs, min(len(cs), 6))
+        # every range type once more as a ladder of disjoint branches with every spec shape
+        for j, ty in enumerate(gen.RANGE_TYPES + [None], start=len(types)):
+            node = ladder_decl(rng, ty)
             decls.append(("r%d" % j, node))
             cs = counts_for(node, rng)
             fkc["r%d" % j] = rng.sample(cs, min(len(cs), 6))
